@@ -227,6 +227,11 @@ def gen_spectrum(rng, f_min, f_max, gain, p_max, one=False, regime=None):
                   'above': p_max - gain + rng.uniform(0.2, 8), 'far_below': p_max - gain - rng.uniform(15, 35)}[regime]
     flat = rng.random() < 0.5
     w = [1.0 if flat else 10 ** (rng.uniform(-4, 4) / 10) for _ in chans]
+    if rng.random() < 0.4 and len(chans) > 1:
+        # stronger channels towards one end of the band (either end): the power-weighted gain then differs from the mean gain
+        slope_db = rng.choice([-1, 1]) * rng.uniform(3, 15)
+        fl, fh = chans[0][0], chans[-1][0]
+        w = [wi * 10 ** (slope_db * ((c[0] - fl) / (fh - fl) - 0.5) / 10) for wi, c in zip(w, chans)]
     win = sum(wi for wi, c in zip(w, chans) if c in inb) or 1.0
     ptot = 10 ** (target_tot / 10) * 1e-3
     out = []
@@ -467,6 +472,9 @@ def gen_history(rng, keys, rippled):
             tot = a.p_max - op['gain_target'] + rng.choice([-20, -8, -3, 0.5, 3])     # below ... above saturation
             flat = rng.random() < 0.5
             w = [1.0 if flat else 10 ** (rng.uniform(-3, 3) / 10) for _ in c]
+            if rng.random() < 0.4 and len(c) > 1:
+                slope_db = rng.choice([-1, 1]) * rng.uniform(3, 15)
+                w = [wi * 10 ** (slope_db * (i / (len(c) - 1) - 0.5) / 10) for i, wi in enumerate(w)]
             for wi, ch_ in zip(w, c):
                 chans.append([ch_[0], ch_[1], ch_[2], 10 ** (tot / 10) * 1e-3 * wi / sum(w), rng.choice([0.0, 1e-3]), rng.choice([0.0, 1e-4])])
         steps.append(sorted(chans, key=lambda c: c[0]))
@@ -798,6 +806,16 @@ def run(ctx):
                 cases.append(c)
         rippled = [k for k in keys if lib[k][0].type_def != 'multi_band'
                    and (numpy.size(lib[k][0].gain_ripple) > 1 or numpy.size(lib[k][0].nf_ripple) > 1)]
+        # a single in-band carrier (the one-channel shortcut of the gain profile), on amplifiers with frequency dependent
+        # ripple in particular, tilted or not, saturated or not
+        for k in rippled + [rng.choice(keys) for _ in range(ctx.scale(6, 60))]:
+            for _ in range(ctx.scale(2, 6)):
+                c = None
+                while c is None:
+                    c = gen_case(rng, [k], one=True)
+                    if c and ('custom' in c['amp'] or 'genlib' in c['amp']):
+                        c = None
+                cases.append(c)
         for _ in range(ctx.scale(40, 500)):
             cases.append(gen_history(rng, keys, rippled))
         while len(cases) < n:
